@@ -1285,14 +1285,15 @@ class MindsDBParser(Parser):
         query = p.query
         query.parentheses = True
         if hasattr(p, 'id'):
-            query.alias = Identifier(parts=[p.id])
+            # the text of the id still carries the back-quotes of a quoted name
+            query.alias = Identifier(p.id)
         if hasattr(p, 'column_list'):
             if not isinstance(query, Select):
                 raise ParsingException(f'Column aliases are supported only for a select: {query}')
             for i, col in enumerate(p.column_list):
                 if i >= len(query.targets):
                     break
-                query.targets[i].alias = Identifier(parts=[col])
+                query.targets[i].alias = Identifier(col)
         return query
 
     # keywords for table
